@@ -62,6 +62,13 @@ def TSt.readBatch (s : TSt) (sl : Slice) : List Bytes :=
 def TSt.batches (s : TSt) : List (String × Nat × List Bytes) :=
   s.b.out.map fun b => (b.source, b.start, s.readBatch b.batch)
 
+/-- The same as value-level batches `(lines, BatchStart)` of `Rare.Model.Batcher`. -/
+def TSt.numbered (s : TSt) : List (Batcher.Batch Bytes) :=
+  s.b.out.map fun b => ⟨s.readBatch b.batch, b.start⟩
+
+/-- The lines appended to `batch` that have not been sent (yet). -/
+def TSt.pending (s : TSt) : List Bytes := s.readBatch s.b.cur
+
 def TSt.init (bufSize batchSize : Nat) (rd : Reader) : TSt :=
   { imm := Imm.init bufSize rd, b := St.init batchSize, lines := 0, status := .running, toks := [], sentAt := [] }
 
